@@ -129,6 +129,140 @@ Proof.
     + rewrite (IH j (base + 1) x Hn Hj). f_equal. lia.
 Qed.
 
+(* ---- TlsHostsSettings::validate: the threaded name set accepts exactly the settings in which every name
+        designates at most one entry ---- *)
+Lemma existsb_name_eqb_in x l : existsb (name_eqb x) l = true <-> In x l.
+Proof.
+  rewrite existsb_exists. split.
+  - intros [y [Hy E]]. apply name_eqb_eq in E. subst. exact Hy.
+  - intros H. exists x. split; [exact H|apply name_eqb_refl].
+Qed.
+
+Lemma entry_free_iff taken e :
+  negb (existsb (fun x => existsb (name_eqb x) taken) e) = true <-> (forall x, In x e -> ~ In x taken).
+Proof.
+  rewrite negb_true_iff. split.
+  - intros H x Hx Ht. assert (existsb (fun x => existsb (name_eqb x) taken) e = true); [|congruence].
+    apply existsb_exists. exists x. split; [exact Hx|apply existsb_name_eqb_in; exact Ht].
+  - intros H. destruct (existsb (fun x => existsb (name_eqb x) taken) e) eqn:E; [|reflexivity].
+    apply existsb_exists in E. destruct E as [x [Hx Ht]]. apply existsb_name_eqb_in in Ht.
+    exfalso. exact (H x Hx Ht).
+Qed.
+
+Lemma names_free_iff entries : forall taken,
+  names_free taken entries = true <->
+  ((forall e x, In e entries -> In x e -> ~ In x taken) /\ one_entry_per_name entries).
+Proof.
+  induction entries as [|e r IH]; intros taken; cbn [names_free].
+  - split; [|reflexivity]. intros _. split; [intros e x []|].
+    intros i j e1 e2 x H. destruct i; discriminate.
+  - rewrite andb_true_iff, entry_free_iff, IH. split.
+    + intros [HA [HB HO]]. split.
+      * intros e' x [<-|He'] Hx; [exact (HA x Hx)|].
+        intros Ht. apply (HB e' x He' Hx). apply in_or_app. right. exact Ht.
+      * intros i j e1 e2 x H1 H2 Hx1 Hx2. destruct i as [|i], j as [|j]; cbn [nth_error] in H1, H2.
+        -- reflexivity.
+        -- exfalso. inversion H1; subst e1. apply (HB e2 x (nth_error_In _ _ H2) Hx2).
+           apply in_or_app. left. exact Hx1.
+        -- exfalso. inversion H2; subst e2. apply (HB e1 x (nth_error_In _ _ H1) Hx1).
+           apply in_or_app. left. exact Hx2.
+        -- f_equal. exact (HO i j e1 e2 x H1 H2 Hx1 Hx2).
+    + intros [HC HO]. split; [|split].
+      * intros x Hx. exact (HC e x (or_introl eq_refl) Hx).
+      * intros e' x He' Hx Hin. apply in_app_or in Hin. destruct Hin as [Hin|Hin].
+        -- destruct (In_nth_error _ _ He') as [j Hj].
+           assert (O = S j) by exact (HO O (S j) e e' x eq_refl Hj Hin Hx). discriminate.
+        -- exact (HC e' x (or_intror He') Hx Hin).
+      * intros i j e1 e2 x H1 H2 Hx1 Hx2.
+        assert (S i = S j) by exact (HO (S i) (S j) e1 e2 x H1 H2 Hx1 Hx2). congruence.
+Qed.
+
+Lemma hosts_accepted_iff_proof c :
+  valid_hosts c = true <-> (c_main c <> [] /\ one_entry_per_name (claims c)).
+Proof.
+  unfold valid_hosts. rewrite andb_true_iff, negb_true_iff, names_free_iff. split.
+  - intros [H1 [_ H2]]. split; [destruct (c_main c); discriminate|exact H2].
+  - intros [H1 H2]. split; [destruct (c_main c); [contradiction|reflexivity]|].
+    split; [intros e x _ _ []|exact H2].
+Qed.
+
+Lemma hosts_refused_iff_proof c :
+  valid_hosts c = false <-> (c_main c = [] \/ ~ one_entry_per_name (claims c)).
+Proof.
+  split.
+  - intros H. destruct (c_main c) eqn:E; [left; reflexivity|right].
+    intros HO. assert (valid_hosts c = true); [|congruence].
+    apply hosts_accepted_iff_proof. split; [rewrite E; discriminate|exact HO].
+  - intros H. destruct (valid_hosts c) eqn:E; [|reflexivity].
+    apply hosts_accepted_iff_proof in E. destruct E as [E1 E2]. destruct H as [H|H]; contradiction.
+Qed.
+
+(* the host names themselves are pairwise distinct across the four groups *)
+Lemma all_names_heads c : all_names c = map (hd []) (claims c).
+Proof.
+  unfold all_names, claims, main_names. rewrite map_app, !map_map. cbn [host_names hd].
+  f_equal. rewrite map_id. reflexivity.
+Qed.
+
+Lemma claims_nonempty c e : In e (claims c) -> In (hd [] e) e.
+Proof.
+  unfold claims. intros H. apply in_app_or in H. destruct H as [H|H]; apply in_map_iff in H;
+    destruct H as [y [<- _]]; left; reflexivity.
+Qed.
+
+Lemma valid_hosts_names_distinct c : valid_hosts c = true -> NoDup (all_names c).
+Proof.
+  intros H. apply hosts_accepted_iff_proof in H. destruct H as [_ HO].
+  rewrite all_names_heads. apply NoDup_nth_error. intros i j Hi E.
+  rewrite map_length in Hi. rewrite !nth_error_map in E.
+  destruct (nth_error (claims c) i) as [e1|] eqn:E1; [|apply nth_error_None in E1; lia].
+  destruct (nth_error (claims c) j) as [e2|] eqn:E2; [|discriminate].
+  cbn [option_map] in E. inversion E as [Eh].
+  apply (HO i j e1 e2 (hd [] e1) E1 E2).
+  - apply (claims_nonempty c). eapply nth_error_In. exact E1.
+  - rewrite Eh. apply (claims_nonempty c). eapply nth_error_In. exact E2.
+Qed.
+
+(* an alternative SNI is looked up to the one main host that lists it *)
+Lemma alt_lookup_first sni : forall hosts base j h,
+  nth_error hosts j = Some h -> In sni (mh_alts h) ->
+  (forall i h', (i < j)%nat -> nth_error hosts i = Some h' -> ~ In sni (mh_alts h')) ->
+  alt_lookup sni hosts base = Some (base + N.of_nat j).
+Proof.
+  induction hosts as [|h0 hosts IH]; intros base j h Hj Hin Hbefore; [destruct j; discriminate|].
+  cbn [alt_lookup]. destruct j as [|j]; cbn [nth_error] in Hj.
+  - inversion Hj; subst h0.
+    assert (E : existsb (name_eqb sni) (mh_alts h) = true) by (apply existsb_name_eqb_in; exact Hin).
+    rewrite E. f_equal. lia.
+  - destruct (existsb (name_eqb sni) (mh_alts h0)) eqn:E.
+    + exfalso. apply existsb_name_eqb_in in E. apply (Hbefore O h0); [lia|reflexivity|exact E].
+    + rewrite (IH (base + 1) j h Hj Hin).
+      * f_equal. lia.
+      * intros i h' Hi Hn. apply (Hbefore (S i) h'); [lia|exact Hn].
+Qed.
+
+Lemma claims_main c i h : nth_error (c_main c) i = Some h -> nth_error (claims c) i = Some (host_names h).
+Proof.
+  intros H. unfold claims. rewrite nth_error_app1.
+  - rewrite nth_error_map, H. reflexivity.
+  - rewrite map_length. apply nth_error_Some. congruence.
+Qed.
+
+Lemma alternative_sni_designates_proof c j h sni :
+  valid_hosts c = true -> nth_error (c_main c) j = Some h -> In sni (mh_alts h) ->
+  alt_lookup sni (c_main c) 0 = Some (N.of_nat j)
+  /\ (forall i e, nth_error (claims c) i = Some e -> In sni e -> i = j).
+Proof.
+  intros Hv Hj Hin. apply hosts_accepted_iff_proof in Hv. destruct Hv as [_ HO].
+  assert (Hc : forall i e, nth_error (claims c) i = Some e -> In sni e -> i = j).
+  { intros i e Hi He. apply (HO i j e (host_names h) sni Hi (claims_main c j h Hj) He).
+    right. exact Hin. }
+  split; [|exact Hc].
+  rewrite (alt_lookup_first sni (c_main c) 0 j h Hj Hin); [f_equal|].
+  intros i h' Hi Hn Hin'. assert (i = j); [|lia].
+  apply (Hc i (host_names h') (claims_main c i h' Hn)). right. exact Hin'.
+Qed.
+
 Lemma unknown_sni_refused_proof c alpn sni :
   designated c sni = None -> select c alpn sni = None.
 Proof.
